@@ -256,6 +256,12 @@ func init() {
 				// reload from disk and snapshot round trips
 				u = append(u, c01Units(C01Arg{DFSArg: DFSArg{Kind: k.kind, Writers: 2, Depth: d3, Alpha: k.alpha}, Observer: true, Routes: []string{"direct"}, Reload: true, Snapshot: true}, 16)...)
 			}
+			// two concurrent remote branches merged in separate batches, then reload from disk
+			rd := 5
+			if tier == "thorough" {
+				rd = 6
+			}
+			u = append(u, c01Units(C01Arg{DFSArg: DFSArg{Kind: "eventlog", Writers: 2, Depth: rd, Alpha: "one", SD: 3}, Observer: true, Routes: []string{"sync"}, Reload: true}, 32)...)
 			// fetch completion orders inside one merge, with duplication and a local write in flight
 			gb := 2
 			if tier == "thorough" {
